@@ -107,7 +107,7 @@ func newSeqGen(r *RNG, tier string, profile string) *seqGen {
 	}
 	g := &seqGen{profile: profile, vals: map[string][]byte{}, has: map[string]bool{}}
 	g.kind = "mh"
-	if r.Bool(20) && (profile == "c01" || profile == "c02" || profile == "all") {
+	if r.Bool(20) && (profile == "c01" || profile == "c02" || profile == "all") && profile != "c10" {
 		g.kind = "cid"
 	}
 	bitsChoices := []int{8, 8, 9, 10, 11, 12, 12, 13, 14, 15, 16, 16, 17, 18, 19, 20}
@@ -133,7 +133,11 @@ func newSeqGen(r *RNG, tier string, profile string) *seqGen {
 	}
 	nkeys := 3 + r.Intn(9)
 	for _, d := range genDigests(r, g.bits, nkeys) {
-		mh := mkMultihash(mhCodes[r.Intn(len(mhCodes))], d)
+		code := mhCodes[r.Intn(len(mhCodes))]
+		if profile == "c10" && code > 0x7f {
+			code = 0x12
+		}
+		mh := mkMultihash(code, d)
 		if g.kind == "cid" {
 			if len(d) == 32 && r.Bool(50) {
 				mh = mkMultihash(0x12, d)
@@ -280,6 +284,74 @@ func (g *seqGen) Next(r *RNG, hist []Op) (Op, bool) {
 		g.pending = g.pending[1:]
 		return op, true
 	}
+	if !g.started && g.profile == "c10" {
+		// a legacy store generated from an arbitrary map with arbitrary freed records, opened with chunk limits that
+		// split the old files; afterwards the upgraded store goes through an ordinary history
+		g.started = true
+		g.isOpen = true
+		g.kind = "mh"
+		hx := hex.EncodeToString
+		var recs, freed, bad, gone []string
+		n := 0
+		for round := 0; round < 1+r.Intn(2); round++ {
+			for _, k := range g.keys {
+				if len(k) < 2 || k[0] >= 0x80 || k[1] >= 0x80 {
+					continue
+				}
+				if round > 0 && !r.Bool(40) {
+					continue
+				}
+				v := g.randVal(r)
+				if v == "nil" {
+					v = ""
+				}
+				recs = append(recs, hx(k)+":"+v)
+				// an earlier record of a key that appears again later is long gone from the index
+				switch {
+				case g.has[string(k)]:
+					// the previous record of this key becomes "gone"
+					for j := n - 1; j >= 0; j-- {
+						if recs[j][:indexByte(recs[j], ':')] == hx(k) && !containsStr(gone, strconv.Itoa(j)) && !containsStr(freed, strconv.Itoa(j)) && !containsStr(bad, strconv.Itoa(j)) {
+							gone = append(gone, strconv.Itoa(j))
+							break
+						}
+					}
+					g.has[string(k)] = true
+				default:
+					g.has[string(k)] = true
+				}
+				n++
+			}
+		}
+		// free or corrupt some of the records that are current
+		for i := 0; i < n; i++ {
+			if containsStr(gone, strconv.Itoa(i)) {
+				continue
+			}
+			kh := recs[i][:len(recs[i])-len(recs[i][indexByte(recs[i], ':'):])]
+			switch r.Pick(70, 18, 12) {
+			case 1:
+				freed = append(freed, strconv.Itoa(i))
+				kb, _ := hex.DecodeString(kh)
+				delete(g.has, string(kb))
+			case 2:
+				bad = append(bad, strconv.Itoa(i))
+				kb, _ := hex.DecodeString(kh)
+				delete(g.has, string(kb))
+			}
+		}
+		g.ifs = []int{1, 16, 100, 1024, 0}[r.Intn(5)]
+		g.pfs = []int{1, 16, 100, 1024, 0}[r.Intn(5)]
+		stale := strconv.Itoa(r.Intn(2))
+		var ks []string
+		for _, k := range g.keys {
+			ks = append(ks, hx(k))
+		}
+		g.pending = append(g.pending, g.openOp(g.bits, g.ifs, g.pfs), mkOp("fsck"), mkOp("chunks", "k", joinRecKeys(recs)), mkOp("view"), mkOp("disk"))
+		g.readBackAll()
+		g.profile = "c10run"
+		return mkOp("legacy", "bits", strconv.Itoa(g.bits), "recs", joinStr(recs), "freed", joinStr(freed), "bad", joinStr(bad), "gone", joinStr(gone), "stale", stale), true
+	}
 	if !g.started {
 		g.started = true
 		g.isOpen = true
@@ -339,8 +411,8 @@ func (g *seqGen) Next(r *RNG, hist []Op) (Op, bool) {
 	}
 	g.step++
 	hx := hex.EncodeToString
-	gcOK := g.kind == "mh" && (g.profile == "c04" || g.profile == "c11" || g.profile == "c13" || g.profile == "all" || g.profile == "c07")
-	reopenOK := g.profile == "c02" || g.profile == "all" || g.profile == "c04" || g.profile == "c13" || g.profile == "c07" || g.profile == "c09"
+	gcOK := g.kind == "mh" && (g.profile == "c10run" || g.profile == "c04" || g.profile == "c11" || g.profile == "c13" || g.profile == "all" || g.profile == "c07")
+	reopenOK := g.profile == "c10run" || g.profile == "c02" || g.profile == "all" || g.profile == "c04" || g.profile == "c13" || g.profile == "c07" || g.profile == "c09"
 	wGC, wReopen := 0, 0
 	if gcOK {
 		wGC = 10
@@ -493,4 +565,44 @@ func (g *seqGen) Next(r *RNG, hist []Op) (Op, bool) {
 			}
 		}
 	}
+}
+
+func containsStr(l []string, x string) bool {
+	for _, y := range l {
+		if y == x {
+			return true
+		}
+	}
+	return false
+}
+
+func indexByte(s string, c byte) int {
+	for i := 0; i < len(s); i++ {
+		if s[i] == c {
+			return i
+		}
+	}
+	return len(s)
+}
+
+func joinStr(l []string) string {
+	out := ""
+	for i, x := range l {
+		if i > 0 {
+			out += ","
+		}
+		out += x
+	}
+	return out
+}
+
+func joinRecKeys(recs []string) string {
+	out := ""
+	for i, x := range recs {
+		if i > 0 {
+			out += ","
+		}
+		out += x[:indexByte(x, ':')]
+	}
+	return out
 }
